@@ -42,7 +42,7 @@ inductive HeapObj where
 structure World where
   heap : Array HeapObj := #[]
   disk : Array (List Val) := #[]        -- lazily initialised 30-block disk of the generated tests
-  deriving Inhabited
+  deriving Inhabited, Repr
 
 inductive Res (α : Type) where
   | ok (a : α) (w : World)
@@ -270,18 +270,18 @@ inductive Frame where
   | iterK (f : Val) (todo : List (List Val))       -- ForSlice / MapIter: remaining argument lists for f
   | discardK (v : Val)                             -- return v after the current evaluation
   | acquireK (lockObj : Nat)                       -- second half of condWait
-  deriving Inhabited
+  deriving Inhabited, Repr
 
 inductive Ctl where
   | eval (e : Expr) (env : Env)
   | ret (v : Val)
   | apply (f : Val) (args : List Val)
-  deriving Inhabited
+  deriving Inhabited, Repr
 
 structure Thread where
   ctl : Ctl
   k : List Frame
-  deriving Inhabited
+  deriving Inhabited, Repr
 
 inductive StepOut where
   | next (t : Thread) (w : World) (spawn : Option Thread) (sync : Bool)   -- sync: this step was a synchronisation operation
